@@ -17,10 +17,12 @@ class Lab:
         self.rng, self.max_fields, self.max_depth = rng, max_fields, max_depth
         self.structs = []     # (name, ctrl, fields, exact)
         self.n = 0
+        self.tag_heavy = False   # C13: mostly tagged fields, several of them mandatory
+        self.plain_names = False # fall-back when the generated source does not compile: f0..fN only (same structs otherwise)
 
     def rename(self, fields):
         """half of the structs get plausible field names instead of f0..fN (always `curr_len` / `len` for a usize field if there is one)"""
-        if not fields or self.rng.random() < 0.5:
+        if not fields or self.rng.random() < 0.5 or self.plain_names:
             return
         # `curr_len` / `len` only for usize fields: with another type a capture by the decoder's counter is a compile error (reported as
         # "generated well-formed structs must compile", without a failing input); with usize it is a silently wrong value
@@ -123,13 +125,28 @@ class Lab:
         pool = [t for t in range(1, 255) if t not in (0x1f, 0xff)]
         if via_tlv:
             pool += [0x1f00 + x for x in range(0, 256, 7)] + [0xff00 + x for x in range(1, 256, 11)]
-        return r.sample(pool, k)
+        tags = r.sample(pool, k)
+        if k >= 2 and r.random() < (0.7 if self.tag_heavy else 0.3):
+            # numbers that differ only in their prefix byte (XX, 1FXX, FFXX) or only in the bits a BER reader masks (XX, XX ^ 0x20 ...):
+            # distinct numbers to this format, confusable for a decoder that keeps less than the whole number
+            x = r.choice([t for t in range(1, 255) if t not in (0x1f, 0xff)])
+            cand = [0x1f00 + x, 0xff00 + x, x] if r.random() < 0.75 else [x, x ^ 0x20, x ^ 0x80, 0x1f00 + (x ^ 0x20)]
+            cand = [t for t in cand if t not in (0x1f, 0xff, 0)]
+            r.shuffle(cand)
+            take = cand[: r.randint(2, min(len(cand), k))]
+            rest = [t for t in tags if t not in take]
+            tags = (take + rest)[:k]
+            r.shuffle(tags)
+        return tags
 
     def struct(self, depth, allow_ctrl=True):
         r = self.rng
         name = self.new_name()
         n_fields = r.randint(0, self.max_fields if depth == 0 else 4)
         n_tagged = r.randint(0, n_fields)
+        if self.tag_heavy:
+            n_fields = r.randint(3, self.max_fields if depth == 0 else 4)
+            n_tagged = r.randint(max(2, n_fields - 2), n_fields)
         n_pos = n_fields - n_tagged
         fields = []
         for i in range(n_pos):
@@ -155,6 +172,8 @@ class Lab:
             if not tlv and ln == "empty" and not (tj["k"] == "int" and enc in ("dflt", "be")):
                 ln = "tlv"
             w = r.random()
+            if self.tag_heavy:
+                w = 0.3 + 0.7 * w      # more mandatory fields
             if w < 0.45:
                 rt, tj = self.opt(rt), {"k": "opt", "t": tj}
             elif w < 0.65:
@@ -197,8 +216,10 @@ def rust_source(structs):
     return "\n".join(out)
 
 
-def generate(rng, n_top):
-    lab = Lab(rng)
+def generate(rng, n_top, tag_heavy=False, plain_names=False):
+    lab = Lab(rng, max_fields=7, max_depth=2) if tag_heavy else Lab(rng)
+    lab.tag_heavy = tag_heavy
+    lab.plain_names = plain_names
     tops = []
     for _ in range(n_top):
         tops.append("lab::" + lab.struct(0))
